@@ -488,6 +488,20 @@ theorem C03_carrying_no_pair_no_match (L S R : List Nat) (slop : Nat)
     PhraseSlop.carrying L S R slop = (0, [], []) :=
   PhraseSlop.carrying_far L S R slop hfar
 
+/-- hence, whatever slops are carried in (any fold step, any number of terms, no sortedness): a
+positive count means that some occurrence pair of the two lists is within the slop -/
+theorem C03_carrying_count_pos_implies_pair (L S R : List Nat) (slop : Nat)
+    (h : 0 < (PhraseSlop.carrying L S R slop).1) : ∃ a, a ∈ L ∧ ∃ b, b ∈ R ∧ dist a b ≤ slop := by
+  apply Classical.byContradiction
+  intro hn
+  have hfar : ∀ a ∈ L, ∀ b ∈ R, slop < dist a b := by
+    intro a ha b hb
+    apply Nat.lt_of_not_le
+    intro hle
+    exact hn ⟨a, ha, b, hb, hle⟩
+  rw [C03_carrying_no_pair_no_match L S R slop hfar] at h
+  exact Nat.lt_irrefl 0 h
+
 /-- first fold step (no slops carried in, increasing lists): the count is positive exactly when
 some occurrence pair is within the slop — until its first hit the loop moves like
 `intersection_exists_with_slop` -/
@@ -729,6 +743,30 @@ theorem C03_json_merged_column_type (segs : List JsonRange.SegVals) (hok : ∀ s
     JsonRange.mergedCol (segs.map JsonRange.SegVals.src)
       = (JsonRange.colOf true (segs.flatMap (·.vals))).lift :=
   JsonRange.mergedCol_u64_supplied segs hok
+
+/-- the same for any mix of i64- and u64-supplied values, f64 outcome included (negative values
+next to values ≥ i64::MAX): the merged column's type is the write-time type `writtenCol` of all
+source values together — merging never changes the type a path would have had in one segment -/
+theorem C03_json_merged_column_type_mixed (segs : List JsonRange.SegMix) (hok : ∀ s ∈ segs, s.ok) :
+    JsonRange.mergedCol (segs.map JsonRange.SegMix.src)
+      = JsonRange.writtenCol (segs.flatMap (·.vals)) :=
+  JsonRange.mergedCol_mixed segs hok
+
+/-- `writtenCol` restricted to one supplied type is `colOf` -/
+theorem C03_json_written_column_type_single (sup : Bool) (vals : List Int) :
+    JsonRange.writtenCol (vals.map (fun v => (sup, v))) = (JsonRange.colOf sup vals).lift := by
+  unfold JsonRange.writtenCol JsonRange.colOf JsonRange.pI JsonRange.pU
+  cases sup with
+  | false => simp [JsonRange.ColT.lift]
+  | true =>
+    have hU : (vals.map (fun v => (true, v))).all (fun p => p.1 || decide (0 ≤ p.2)) = true := by
+      simp
+    simp only [List.all_map, Bool.not_true, Bool.false_or] at hU ⊢
+    by_cases h : vals.all (fun v => decide (v < JsonRange.I64MAX)) = true
+    · have h' : (vals.all ((fun p : Bool × Int => !p.1 || decide (p.2 < JsonRange.I64MAX)) ∘ fun v => (true, v))) = true := by
+        simpa [Function.comp_def] using h
+      simp [h, h', JsonRange.ColT.lift]
+    · simp [h, JsonRange.ColT.lift, Function.comp_def]
 
 /-- integer-typed bounds (i64 / u64 terms): only the lower-bound condition remains -/
 theorem C03_json_int_range_coercion_partial (col : JsonRange.ColT) (lo hi : JsonRange.B) (v : Int)
